@@ -670,6 +670,14 @@ impl ObjectHandle {
   }
 }
 
+#[cfg(feature = "verif")]
+impl ObjectHandle {
+  /// The address of the block backing this object
+  pub fn verif_addr(&self) -> usize {
+    self.ptr.as_ptr() as usize
+  }
+}
+
 impl Drop for ObjectHandle {
   #[inline]
   fn drop(&mut self) {
